@@ -99,11 +99,13 @@ pub const HOST_CAPITALS: &str = "Host-\u{c9}cole";
 fn ty() -> Name {
     n("_t._tcp.local")
 }
+// (in the variant with a host name in capitals the instance labels have capitals and a non-ASCII
+// letter too: whatever is keyed by an instance name has to cope with the spelling received)
 fn inst_i(h: &str) -> Inst {
-    Inst::simple("inst1", h, [10, 0, 0, 9])
+    Inst::simple(if h == HOST_PLAIN { "inst1" } else { "Inst1 B\u{fc}ro" }, h, [10, 0, 0, 9])
 }
 fn inst_j(h: &str) -> Inst {
-    let mut j = Inst::simple("inst2", h, [10, 0, 0, 9]);
+    let mut j = Inst::simple(if h == HOST_PLAIN { "inst2" } else { "INST2" }, h, [10, 0, 0, 9]);
     j.port = 81;
     j.txt = txt_rdata(&[(b"j", None)]);
     j
